@@ -55,14 +55,16 @@ ASSUMPTIONS = ["CPython with the GIL: pre-emption happens between bytecode instr
                "covers every pre-emption point of the id generator with one forced pre-emption",
                "requests never reach the network: the opener of the shared implementation object is replaced"]
 TIERS = {
-    "quick": {"shards": 2, "cases": 12, "timeout": 300, "params": {"sweeps": 3}},
+    "quick": {"shards": 2, "cases": 12, "timeout": 300, "params": {"sweeps": 5}},
     "thorough": {"shards": 16, "cases": 60, "timeout": 3000, "params": {"sweeps": 3}},
 }
-FLOORS = {"quick": {"connections_described_between_requests": 180, "rounds_where_the_creating_thread_sends_requests": 6,
+FLOORS = {"quick": {"requests_through_connections_whose_adapter_supplies_the_id": 400,
+                    "connections_described_between_requests": 180, "rounds_where_the_creating_thread_sends_requests": 6,
                     "distinct_nontrivial": 20, "requests_observed": 5000, "yields_injected": 2000,
                     "offsets_where_A_was_held": 40, "scenarios_where_B_ran_inside_gap": 10,
                     "distinct_interleavings": 10, "long_run_requests": 10001},
-          "thorough": {"connections_described_between_requests": 740, "rounds_where_the_creating_thread_sends_requests": 12,
+          "thorough": {"requests_through_connections_whose_adapter_supplies_the_id": 1700,
+                       "connections_described_between_requests": 740, "rounds_where_the_creating_thread_sends_requests": 12,
                        "distinct_nontrivial": 300, "requests_observed": 200000, "yields_injected": 100000,
                        "offsets_where_A_was_held": 1500, "scenarios_where_B_ran_inside_gap": 400,
                        "distinct_interleavings": 400, "long_run_requests": 100001}}
